@@ -186,7 +186,21 @@ pub fn run(run: &Run) {
             let feats = c01::features(&f, v);
             let reference = emit::join(&toks, "");
             let mut ss = vec![];
-            spacings(&toks, " ", &mut ss);
+            if toks.len() <= 120 {
+                spacings(&toks, " ", &mut ss);
+            } else {
+                // very wide values (hundreds of tokens; the lexical parser's cost grows with components x remaining
+                // text): the three uniform spacings only - none, one blank everywhere inside, two blanks everywhere
+                let n = toks.len();
+                let none: Vec<&str> = vec![""; n + 1];
+                ss.push(emit::join_with(&toks, &none));
+                let mut all1: Vec<&str> = vec![" "; n + 1];
+                all1[0] = "";
+                all1[n] = "";
+                ss.push(emit::join_with(&toks, &all1));
+                let all2: Vec<&str> = vec!["  "; n + 1];
+                ss.push(emit::join_with(&toks, &all2));
+            }
             if tier == Tier::Thorough && toks.len() <= 14 {
                 spacings2(&toks, " ", &mut ss);
             }
